@@ -151,7 +151,34 @@ private theorem is_head (l : List VPath) (p : VPath) : ∃ x, (insertSort l p).h
     unfold insertSort
     by_cases h : q.pref < p.pref <;> simp [h]
 
+private theorem rs_excl (l : List VPath) (p q : VPath) (hl : l.Pairwise (fun a b => sameSlot a b = false))
+    (hq : q ∈ (removeSlot l p).1) : (removeSlot l p).2 ≠ some q := by
+  intro e
+  have a := rs_none l p hl q hq
+  have b := rs_old l p q e
+  rw [a] at b; cases b
+
+private theorem rs_not_self (l : List VPath) (p q : VPath) (hl : l.Pairwise (fun a b => sameSlot a b = false))
+    (hq : q ∈ (removeSlot l p).1) : q ≠ p := by
+  intro e
+  have a := rs_none l p hl q hq
+  rw [e] at a
+  simp [sameSlot] at a
+
 /-! ### the new destination list -/
+
+/-- a stored path of the announcement that is fed is the occupant of the slot the update empties -/
+private theorem fresh_root (t : Tbl) (p : VPath) (h : TblWF t) (hf : Fresh t p) (n : Nat × Nat) (q : VPath)
+    (hq : q ∈ t.dest n) (e : q.root = p.root) :
+    n = p.nlri ∧ (removeSlot (t.dest p.nlri) p).2 = some q := by
+  have f := hf.2 n q hq e
+  have hn : n = p.nlri := by rw [← h.nlri_ok n q hq]; exact f.1
+  subst hn
+  refine ⟨rfl, ?_⟩
+  rcases (rs_mem _ p q).1 hq with hr | ho
+  · have a := rs_none _ p (h.slot_uniq _) q hr
+    rw [f.2] at a; cases a
+  · exact ho
 
 /-- the universe of paths around one update: what is stored, and the announced path -/
 private def InU (t : Tbl) (p : VPath) (wd : Bool) (q : VPath) : Prop :=
@@ -161,8 +188,8 @@ private theorem inU_inj (t : Tbl) (p : VPath) (wd : Bool) (h : TblWF t) (hf : wd
     (a b : VPath) (ha : InU t p wd a) (hb : InU t p wd b) (e : a.uid = b.uid) : a = b := by
   rcases ha with ⟨n, ha⟩ | ⟨hw, rfl⟩ <;> rcases hb with ⟨n', hb⟩ | ⟨hw', rfl⟩
   · exact h.uid_uniq n n' a b ha hb e
-  · exact absurd e (hf hw' n a ha)
-  · exact absurd e.symm (hf hw n' b hb)
+  · exact (hf hw').1 n a ha e
+  · exact ((hf hw).1 n' b hb e.symm).symm
   · rfl
 
 private theorem calc_mem (l : List VPath) (p : VPath) (wd : Bool) (x : VPath) :
@@ -198,8 +225,20 @@ private theorem update_inU (t : Tbl) (p : VPath) (wd : Bool) (n : Nat × Nat) (x
   · subst hn; rw [update_dest_eq] at hx; exact calc_inU t p wd x hx
   · rw [update_dest_ne t p wd n hn] at hx; exact Or.inl ⟨n, hx⟩
 
+private theorem update_mem (t : Tbl) (p : VPath) (wd : Bool) (n : Nat × Nat) (x : VPath)
+    (hx : x ∈ (t.update p wd).dest n) :
+    (wd = false ∧ x = p) ∨ (x ∈ t.dest n ∧ (n = p.nlri → x ∈ (removeSlot (t.dest p.nlri) p).1)) := by
+  by_cases hn : n = p.nlri
+  · subst hn
+    rw [update_dest_eq, calc_mem] at hx
+    rcases hx with hx | hx
+    · exact Or.inl hx
+    · exact Or.inr ⟨(rs_sub _ _).subset hx, fun _ => hx⟩
+  · rw [update_dest_ne t p wd n hn] at hx
+    exact Or.inr ⟨hx, fun e => absurd e hn⟩
+
 theorem empty_wf : TblWF Tbl.empty :=
-  ⟨by simp [Tbl.empty], by simp [Tbl.empty], by simp [Tbl.empty], by simp [Tbl.empty]⟩
+  ⟨by simp [Tbl.empty], by simp [Tbl.empty], by simp [Tbl.empty], by simp [Tbl.empty], by simp [Tbl.empty]⟩
 
 theorem empty_idxInv : IdxInv Tbl.empty := by
   intro k q
@@ -208,7 +247,7 @@ theorem empty_idxInv : IdxInv Tbl.empty := by
 /-- Table.update keeps the table well formed -/
 theorem update_wf (t : Tbl) (p : VPath) (wd : Bool) (h : TblWF t) (hf : wd = false → Fresh t p) :
     TblWF (t.update p wd) := by
-  refine ⟨?_, ?_, ?_, ?_⟩
+  refine ⟨?_, ?_, ?_, ?_, ?_⟩
   · intro n x hx
     by_cases hn : n = p.nlri
     · subst hn
@@ -220,6 +259,18 @@ theorem update_wf (t : Tbl) (p : VPath) (wd : Bool) (h : TblWF t) (hf : wd = fal
       exact h.nlri_ok n x hx
   · intro n n' a b ha hb e
     exact inU_inj t p wd h hf a b (update_inU t p wd n a ha) (update_inU t p wd n' b hb) e
+  · intro n n' a b ha hb e
+    have key : ∀ m y, (y ∈ t.dest m ∧ (m = p.nlri → y ∈ (removeSlot (t.dest p.nlri) p).1)) →
+        wd = false → y.root = p.root → False := by
+      intro m y hy hw er
+      have f := fresh_root t p h (hf hw) m y hy.1 er
+      exact rs_excl _ p y (h.slot_uniq _) (hy.2 f.1) f.2
+    rcases update_mem t p wd n a ha with ⟨hw, ea⟩ | ha' <;>
+      rcases update_mem t p wd n' b hb with ⟨hw', eb⟩ | hb'
+    · rw [ea, eb]
+    · rw [ea] at e; exact (key n' b hb' hw e.symm).elim
+    · rw [eb] at e; exact (key n a ha' hw' e).elim
+    · exact h.root_uniq n n' a b ha'.1 hb'.1 e
   · intro n
     by_cases hn : n = p.nlri
     · subst hn
@@ -248,14 +299,15 @@ private def Good (U : VPath → Prop) (S : Idx) : Prop := ∀ k q, (k, q) ∈ S 
 
 private def UInj (U : VPath → Prop) : Prop := ∀ a b, U a → U b → a.uid = b.uid → a = b
 
-private theorem pkey_uid (a b : VPath) (e : pkey a = pkey b) : a.uid = b.uid := congrArg Prod.fst e
+/-- no entry of another path has the index key of `x` -/
+private def Sep (S : Idx) (x : VPath) : Prop := ∀ k q, (k, q) ∈ S → pkey q = pkey x → q = x
 
 private theorem unreg_good (U : VPath → Prop) (S : Idx) (x : VPath) (hS : Good U S) : Good U (S.unregister x) := by
   intro k q h
   rw [idx_mem_unregister] at h
   exact hS k q h.1
 
-private theorem unreg_mem (U : VPath → Prop) (hU : UInj U) (S : Idx) (x : VPath) (hS : Good U S) (hx : U x)
+private theorem unreg_mem (U : VPath → Prop) (S : Idx) (x : VPath) (hS : Good U S) (hs : Sep S x)
     (k : Nat) (q : VPath) : (k, q) ∈ S.unregister x ↔ ((k, q) ∈ S ∧ q ≠ x) := by
   rw [idx_mem_unregister]
   constructor
@@ -266,7 +318,7 @@ private theorem unreg_mem (U : VPath → Prop) (hU : UInj U) (S : Idx) (x : VPat
   · rintro ⟨h1, h2⟩
     refine ⟨h1, ?_⟩
     rintro ⟨_, e⟩
-    exact h2 (hU q x (hS k q h1).1 hx (pkey_uid q x e))
+    exact h2 (hs k q h1 e)
 
 private theorem reg_good (U : VPath → Prop) (S : Idx) (x : VPath) (hS : Good U S) (hx : U x) :
     Good U (S.register x) := by
@@ -276,7 +328,7 @@ private theorem reg_good (U : VPath → Prop) (S : Idx) (x : VPath) (hS : Good U
   · exact ⟨hx, hk⟩
   · exact hS k q h1
 
-private theorem reg_mem (U : VPath → Prop) (hU : UInj U) (S : Idx) (x : VPath) (hS : Good U S) (hx : U x)
+private theorem reg_mem (U : VPath → Prop) (S : Idx) (x : VPath) (hS : Good U S) (hs : Sep S x)
     (k : Nat) (q : VPath) :
     (k, q) ∈ S.register x ↔ ((k ∈ keys q.ecs ∧ q = x) ∨ ((k, q) ∈ S ∧ q ≠ x)) := by
   rw [idx_mem_register]
@@ -290,7 +342,7 @@ private theorem reg_mem (U : VPath → Prop) (hU : UInj U) (S : Idx) (x : VPath)
     · exact Or.inl ⟨hk, rfl⟩
     · refine Or.inr ⟨h1, ?_⟩
       rintro ⟨_, e⟩
-      exact h2 (hU q x (hS k q h1).1 hx (pkey_uid q x e))
+      exact h2 (hs k q h1 e)
 
 private theorem uid_ne_iff (U : VPath → Prop) (hU : UInj U) (oh : Option VPath) (q : VPath)
     (hoh : ∀ x, oh = some x → U x) (hq : U q) : (uidOf oh != some q.uid) = true ↔ oh ≠ some q := by
@@ -301,6 +353,16 @@ private theorem uid_ne_iff (U : VPath → Prop) (hU : UInj U) (oh : Option VPath
     constructor
     · intro h e; subst e; exact h rfl
     · intro h e; exact h (hU x q (hoh x rfl) hq e)
+
+private theorem uid_eq_iff (U : VPath → Prop) (hU : UInj U) (oh : Option VPath) (q : VPath)
+    (hoh : ∀ x, oh = some x → U x) (hq : U q) : (uidOf oh == some q.uid) = true ↔ oh = some q := by
+  cases oh with
+  | none => simp [uidOf]
+  | some x =>
+    simp only [uidOf, Option.map_some, beq_iff_eq, Option.some.injEq]
+    constructor
+    · intro e; exact hU x q (hoh x rfl) hq e
+    · intro e; rw [e]
 
 /-! the four stages of updateIdx -/
 
@@ -318,28 +380,34 @@ private def u2 (i1 : Idx) (oldBest newBest oldPath : Option VPath) : Idx :=
 
 private def u3 (i2 : Idx) (p : VPath) (wd : Bool) : Idx := if !wd && p.pathId != 0 then i2.register p else i2
 
-private def u4 (i3 : Idx) (oldBest newBest : Option VPath) : Idx :=
+private def u4 (i3 : Idx) (oldBest newBest oldPath : Option VPath) : Idx :=
   match newBest with
-  | some nb => if uidOf oldBest != some nb.uid then i3.register nb else i3
+  | some nb => if uidOf oldBest != some nb.uid || uidOf oldPath == some nb.uid then i3.register nb else i3
   | none => i3
 
 private theorem updateIdx_eq (i : Idx) (oldL newL : List VPath) (p : VPath) (wd : Bool) (op : Option VPath) :
     updateIdx i oldL newL p wd op =
-      u4 (u3 (u2 (u1 i op) oldL.head? newL.head? op) p wd) oldL.head? newL.head? := rfl
+      u4 (u3 (u2 (u1 i op) oldL.head? newL.head? op) p wd) oldL.head? newL.head? op := rfl
 
 private theorem u1_good (U : VPath → Prop) (S : Idx) (op : Option VPath) (hS : Good U S) : Good U (u1 S op) := by
   cases op with
   | none => exact hS
   | some o => exact unreg_good U S o hS
 
-private theorem u1_mem (U : VPath → Prop) (hU : UInj U) (S : Idx) (op : Option VPath) (hS : Good U S)
-    (hop : ∀ x, op = some x → U x) (k : Nat) (q : VPath) :
+private theorem u1_sub (S : Idx) (op : Option VPath) (k : Nat) (q : VPath) (hm : (k, q) ∈ u1 S op) :
+    (k, q) ∈ S := by
+  cases op with
+  | none => exact hm
+  | some o => exact ((idx_mem_unregister S o k q).1 hm).1
+
+private theorem u1_mem (U : VPath → Prop) (S : Idx) (op : Option VPath) (hS : Good U S)
+    (hs : ∀ x, op = some x → Sep S x) (k : Nat) (q : VPath) :
     (k, q) ∈ u1 S op ↔ ((k, q) ∈ S ∧ op ≠ some q) := by
   cases op with
   | none => simp [u1]
   | some o =>
     simp only [u1]
-    rw [unreg_mem U hU S o hS (hop o rfl)]
+    rw [unreg_mem U S o hS (hs o rfl)]
     simp [eq_comm]
 
 private theorem u2_good (U : VPath → Prop) (S : Idx) (oh nh op : Option VPath) (hS : Good U S) :
@@ -352,7 +420,18 @@ private theorem u2_good (U : VPath → Prop) (S : Idx) (oh nh op : Option VPath)
     · exact unreg_good U S ob hS
     · exact hS
 
+private theorem u2_sub (S : Idx) (oh nh op : Option VPath) (k : Nat) (q : VPath)
+    (hm : (k, q) ∈ u2 S oh nh op) : (k, q) ∈ S := by
+  cases oh with
+  | none => exact hm
+  | some ob =>
+    simp only [u2] at hm
+    split at hm
+    · exact ((idx_mem_unregister S ob k q).1 hm).1
+    · exact hm
+
 private theorem u2_mem (U : VPath → Prop) (hU : UInj U) (S : Idx) (oh nh op : Option VPath) (hS : Good U S)
+    (hs : ∀ x, oh = some x → Sep S x)
     (hoh : ∀ x, oh = some x → U x) (hnh : ∀ x, nh = some x → U x) (hop : ∀ x, op = some x → U x)
     (k : Nat) (q : VPath) :
     (k, q) ∈ u2 S oh nh op ↔
@@ -365,7 +444,7 @@ private theorem u2_mem (U : VPath → Prop) (hU : UInj U) (S : Idx) (oh nh op : 
     have e2 := uid_ne_iff U hU op ob hop hob
     simp only [u2]
     by_cases c : (uidOf nh != some ob.uid && uidOf op != some ob.uid && ob.pathId == 0) = true
-    · rw [if_pos c, unreg_mem U hU S ob hS hob]
+    · rw [if_pos c, unreg_mem U S ob hS (hs ob rfl)]
       simp only [Bool.and_eq_true, beq_iff_eq] at c
       have c1 := e1.1 c.1.1
       have c2 := e2.1 c.1.2
@@ -399,8 +478,19 @@ private theorem u3_good (U : VPath → Prop) (S : Idx) (p : VPath) (wd : Bool) (
     exact reg_good U S p hS (hp c.1)
   · exact hS
 
-private theorem u3_mem (U : VPath → Prop) (hU : UInj U) (S : Idx) (p : VPath) (wd : Bool) (hS : Good U S)
-    (hp : wd = false → U p) (k : Nat) (q : VPath) :
+private theorem u3_sub (S : Idx) (p : VPath) (wd : Bool) (k : Nat) (q : VPath)
+    (hm : (k, q) ∈ u3 S p wd) : (wd = false ∧ q = p) ∨ (k, q) ∈ S := by
+  unfold u3 at hm
+  split at hm
+  · rename_i c
+    simp only [Bool.and_eq_true, Bool.not_eq_true'] at c
+    rcases (idx_mem_register S p k q).1 hm with h1 | h1
+    · exact Or.inl ⟨c.1, h1.2⟩
+    · exact Or.inr h1.1
+  · exact Or.inr hm
+
+private theorem u3_mem (U : VPath → Prop) (S : Idx) (p : VPath) (wd : Bool) (hS : Good U S)
+    (hs : wd = false → Sep S p) (k : Nat) (q : VPath) :
     (k, q) ∈ u3 S p wd ↔
       ((wd = false ∧ p.pathId ≠ 0 ∧ k ∈ keys q.ecs ∧ q = p) ∨
        ((k, q) ∈ S ∧ ¬ (wd = false ∧ p.pathId ≠ 0 ∧ q = p))) := by
@@ -408,7 +498,7 @@ private theorem u3_mem (U : VPath → Prop) (hU : UInj U) (S : Idx) (p : VPath) 
   by_cases c : (!wd && p.pathId != 0) = true
   · rw [if_pos c]
     simp only [Bool.and_eq_true, Bool.not_eq_true', bne_iff_ne, ne_eq] at c
-    rw [reg_mem U hU S p hS (hp c.1)]
+    rw [reg_mem U S p hS (hs c.1)]
     simp [c.1, c.2]
   · rw [if_neg c]
     simp only [Bool.and_eq_true, Bool.not_eq_true', bne_iff_ne, ne_eq] at c
@@ -418,8 +508,8 @@ private theorem u3_mem (U : VPath → Prop) (hU : UInj U) (S : Idx) (p : VPath) 
       · exact absurd ⟨h.1, h.2.1⟩ c
       · exact h.1
 
-private theorem u4_good (U : VPath → Prop) (S : Idx) (oh nh : Option VPath) (hS : Good U S)
-    (hnh : ∀ x, nh = some x → U x) : Good U (u4 S oh nh) := by
+private theorem u4_good (U : VPath → Prop) (S : Idx) (oh nh op : Option VPath) (hS : Good U S)
+    (hnh : ∀ x, nh = some x → U x) : Good U (u4 S oh nh op) := by
   cases nh with
   | none => exact hS
   | some nb =>
@@ -428,20 +518,25 @@ private theorem u4_good (U : VPath → Prop) (S : Idx) (oh nh : Option VPath) (h
     · exact reg_good U S nb hS (hnh nb rfl)
     · exact hS
 
-private theorem u4_mem (U : VPath → Prop) (hU : UInj U) (S : Idx) (oh nh : Option VPath) (hS : Good U S)
-    (hoh : ∀ x, oh = some x → U x) (hnh : ∀ x, nh = some x → U x) (k : Nat) (q : VPath) :
-    (k, q) ∈ u4 S oh nh ↔
-      ((nh = some q ∧ oh ≠ some q ∧ k ∈ keys q.ecs) ∨
-       ((k, q) ∈ S ∧ ¬ (nh = some q ∧ oh ≠ some q))) := by
+private theorem u4_mem (U : VPath → Prop) (hU : UInj U) (S : Idx) (oh nh op : Option VPath) (hS : Good U S)
+    (hs : ∀ x, nh = some x → Sep S x)
+    (hoh : ∀ x, oh = some x → U x) (hnh : ∀ x, nh = some x → U x) (hop : ∀ x, op = some x → U x)
+    (k : Nat) (q : VPath) :
+    (k, q) ∈ u4 S oh nh op ↔
+      ((nh = some q ∧ (oh ≠ some q ∨ op = some q) ∧ k ∈ keys q.ecs) ∨
+       ((k, q) ∈ S ∧ ¬ (nh = some q ∧ (oh ≠ some q ∨ op = some q)))) := by
   cases nh with
   | none => simp [u4]
   | some nb =>
     have hnb := hnh nb rfl
     have e1 := uid_ne_iff U hU oh nb hoh hnb
+    have e2 := uid_eq_iff U hU op nb hop hnb
+    have ec : (uidOf oh != some nb.uid || uidOf op == some nb.uid) = true ↔ (oh ≠ some nb ∨ op = some nb) := by
+      rw [Bool.or_eq_true, e1, e2]
     simp only [u4]
-    by_cases c : (uidOf oh != some nb.uid) = true
-    · rw [if_pos c, reg_mem U hU S nb hS hnb]
-      have c1 := e1.1 c
+    by_cases c : (uidOf oh != some nb.uid || uidOf op == some nb.uid) = true
+    · rw [if_pos c, reg_mem U S nb hS (hs nb rfl)]
+      have c1 := ec.1 c
       constructor
       · rintro (⟨hk, rfl⟩ | ⟨h1, h2⟩)
         · exact Or.inl ⟨rfl, c1, hk⟩
@@ -460,11 +555,11 @@ private theorem u4_mem (U : VPath → Prop) (hU : UInj U) (S : Idx) (oh nh : Opt
         rintro ⟨e, h2⟩
         have e' := Option.some.inj e
         subst e'
-        exact c (e1.2 h2)
+        exact c (ec.2 h2)
       · rintro (⟨e, h2, _⟩ | ⟨h1, _⟩)
         · have e' := Option.some.inj e
           subst e'
-          exact absurd (e1.2 h2) c
+          exact absurd (ec.2 h2) c
         · exact h1
 
 private theorem head_mem (l : List VPath) (x : VPath) (h : l.head? = some x) : x ∈ l := by
@@ -495,33 +590,64 @@ theorem update_idxInv (t : Tbl) (p : VPath) (wd : Bool) (h : TblWF t) (hi : IdxI
     rw [calc_snd] at hx
     exact Or.inl ⟨_, (rs_mem _ p x).2 (Or.inr hx)⟩
   have hp : wd = false → InU t p wd p := fun hw => Or.inr ⟨hw, rfl⟩
+  have hwf' := update_wf t p wd h hf
+  have st : ∀ k q, (k, q) ∈ t.idx → q ∈ t.dest q.nlri := fun k q hm => ((hi k q).1 hm).1
+  have s1 : ∀ x, (calcDest (t.dest p.nlri) p wd).2 = some x → Sep t.idx x := by
+    intro x hx k' q' hm e
+    have hx' : x ∈ t.dest p.nlri := by
+      rw [calc_snd] at hx; exact (rs_mem _ p x).2 (Or.inr hx)
+    exact h.root_uniq _ _ q' x (st k' q' hm) hx' (congrArg Prod.fst e)
   have g1 := u1_good (InU t p wd) t.idx (calcDest (t.dest p.nlri) p wd).2 g0
-  have m1 := u1_mem (InU t p wd) hU t.idx (calcDest (t.dest p.nlri) p wd).2 g0 hop k q
+  have m1 := u1_mem (InU t p wd) t.idx (calcDest (t.dest p.nlri) p wd).2 g0 s1
+  have s2 : ∀ x, (t.dest p.nlri).head? = some x →
+      Sep (u1 t.idx (calcDest (t.dest p.nlri) p wd).2) x := by
+    intro x hx k' q' hm e
+    exact h.root_uniq _ _ q' x (st k' q' (u1_sub _ _ _ _ hm)) (head_mem _ x hx) (congrArg Prod.fst e)
   have g2 := u2_good (InU t p wd) _ (t.dest p.nlri).head? (calcDest (t.dest p.nlri) p wd).1.head?
     (calcDest (t.dest p.nlri) p wd).2 g1
   have m2 := u2_mem (InU t p wd) hU _ (t.dest p.nlri).head? (calcDest (t.dest p.nlri) p wd).1.head?
-    (calcDest (t.dest p.nlri) p wd).2 g1 hoh hnh hop k q
+    (calcDest (t.dest p.nlri) p wd).2 g1 s2 hoh hnh hop k q
+  have s3 : wd = false → Sep (u2 (u1 t.idx (calcDest (t.dest p.nlri) p wd).2) (t.dest p.nlri).head?
+      (calcDest (t.dest p.nlri) p wd).1.head? (calcDest (t.dest p.nlri) p wd).2) p := by
+    intro hw k' q' hm e
+    have hm1 := (m1 k' q').1 (u2_sub _ _ _ _ _ _ hm)
+    have f := fresh_root t p h (hf hw) _ q' (st k' q' hm1.1) (congrArg Prod.fst e)
+    rw [calc_snd] at hm1
+    exact absurd f.2 hm1.2
   have g3 := u3_good (InU t p wd) _ p wd g2 hp
-  have m3 := u3_mem (InU t p wd) hU _ p wd g2 hp k q
+  have m3 := u3_mem (InU t p wd) _ p wd g2 s3 k q
+  have s4 : ∀ x, (calcDest (t.dest p.nlri) p wd).1.head? = some x →
+      Sep (u3 (u2 (u1 t.idx (calcDest (t.dest p.nlri) p wd).2) (t.dest p.nlri).head?
+        (calcDest (t.dest p.nlri) p wd).1.head? (calcDest (t.dest p.nlri) p wd).2) p wd) x := by
+    intro x hx k' q' hm e
+    have hxn : x ∈ (t.update p wd).dest p.nlri := by
+      rw [update_dest_eq]; exact head_mem _ x hx
+    have hqn : q' ∈ (t.update p wd).dest q'.nlri := by
+      rcases u3_sub _ _ _ _ _ hm with ⟨hw, eq⟩ | hm2
+      · rw [eq, update_dest_eq, calc_mem]; exact Or.inl ⟨hw, rfl⟩
+      · have hm1 := (m1 k' q').1 (u2_sub _ _ _ _ _ _ hm2)
+        have hs := st k' q' hm1.1
+        by_cases hn : q'.nlri = p.nlri
+        · rw [hn, update_dest_eq, calc_mem]
+          rw [hn] at hs
+          rcases (rs_mem _ p q').1 hs with hr | ho
+          · exact Or.inr hr
+          · rw [calc_snd] at hm1; exact absurd ho hm1.2
+        · rw [update_dest_ne t p wd _ hn]; exact hs
+    exact hwf'.root_uniq _ _ q' x hqn hxn (congrArg Prod.fst e)
   have m4 := u4_mem (InU t p wd) hU _ (t.dest p.nlri).head? (calcDest (t.dest p.nlri) p wd).1.head?
-    g3 hoh hnh k q
-  rw [update_idx_eq, updateIdx_eq, m4, m3, m2, m1, hi k q]
+    (calcDest (t.dest p.nlri) p wd).2 g3 s4 hoh hnh hop k q
+  rw [update_idx_eq, updateIdx_eq, m4, m3, m2, m1 k q, hi k q]
   -- facts about the lists
   have fL := rs_mem (t.dest p.nlri) p q
   have fN := calc_mem (t.dest p.nlri) p wd q
   have fS := calc_snd (t.dest p.nlri) p wd
-  have fD : q ∈ (removeSlot (t.dest p.nlri) p).1 → (removeSlot (t.dest p.nlri) p).2 ≠ some q := by
-    intro hq e
-    have a := rs_none _ p (h.slot_uniq p.nlri) q hq
-    have b := rs_old _ p q e
-    rw [a] at b; cases b
+  have fD : q ∈ (removeSlot (t.dest p.nlri) p).1 → (removeSlot (t.dest p.nlri) p).2 ≠ some q :=
+    rs_excl _ p q (h.slot_uniq p.nlri)
+  have fP : q ∈ (removeSlot (t.dest p.nlri) p).1 → q ≠ p := rs_not_self _ p q (h.slot_uniq p.nlri)
   have fhl := head_mem (t.dest p.nlri) q
   have fhn := head_mem (calcDest (t.dest p.nlri) p wd).1 q
-  have fF : wd = false → q = p → q ∉ t.dest p.nlri := by
-    intro hw e hq
-    subst e
-    exact hf hw _ q hq rfl
-  rw [fS] at m1 m2 m3 m4 ⊢
+  rw [fS] at m2 m3 m4 ⊢
   by_cases hq : q.nlri = p.nlri
   · rw [hq, update_dest_eq]
     grind
